@@ -20,6 +20,8 @@ pub use hb::common::{script, Direction, Feature, Language, Script, Variation};
 pub use hb::face::hb_font_t as Face;
 pub use hb::ot_shape_plan::hb_ot_shape_plan_t as ShapePlan;
 pub use hb::shape::{shape, shape_with_plan};
+#[cfg(rustybuzz_verif)]
+pub use hb::verif;
 
 bitflags::bitflags! {
     /// Flags for buffers.
